@@ -128,4 +128,24 @@ func (*Parser).synchronise
 // contract for every production), which is an induction over the depth of the call tree.
 // Example: a closure literal after its parameter list is `-> body` / `~> body`; without an
 // arrow the input is malformed and must yield an invalid node and a diagnostic, not a crash.
+
+// A regex literal: content sections and interpolations up to the closing token (or the end of
+// input), then flags.  The location of the literal joins the opening token with the LAST token
+// consumed, which therefore has to be a real token on every way out of the first loop — also
+// when the input ends inside the literal.
+func (*Parser).regexLiteral
+  props C03
+  noterm
+  requires wfP(p)
+  ensures wf: wfP(p)
+  ensures node: ifaceptr(ret) != 0
+  loop 1
+    invariant p != nil && p.lexer != nil
+    invariant okTok(p.lookahead)
+    invariant okTok(p.secondLookahead) && okTok(p.thirdLookahead)
+    invariant 0 <= p.lexer.start && p.lexer.start == p.lexer.cursor && p.lexer.cursor <= len(p.lexer.source)
+    invariant okTok(begTok)
+  loop 2
+    invariant wfP(p) && okTok(begTok) && okTok(endTok)
+    invariant len(reContent) == 0 || ifaceptr(reContent[0]) != 0
 @*/
